@@ -110,8 +110,10 @@ Definition qg_distribute (n : qnode) : option qnode :=
   match push_distributed S P maxiter None (qn_outs n) (s_act s1) with
   | None => None
   | Some (outs1, remaining, _) =>
-      let sent := vchange (s_act s1) (vol (s_act s1) - vol remaining) in
-      let '(t2, _) := qt_pull t1 (vol sent) in
+      (* exactly what was not handed back is taken out (a remainder that comes back over a travel-time arc need not
+         have the tank's composition) *)
+      let sent := vsub (s_act s1) remaining in
+      let '(t2, _) := qt_pull_exact t1 sent in
       Some (qn_with n t2 outs1)
   end.
 Definition qg_override (n : qnode) (cap : Q) (ta : list (nat * Q)) : qnode := sw_override n cap (qn_pt n) ta.
